@@ -98,10 +98,13 @@ class H(BaseHTTPRequestHandler):
         with LOCK:
             c = COUNTS.setdefault(bucket, {'put': 0, 'get': 0}); c['get'] += 1
             f = FAULTS.get(bucket, {}); n = f.get('fail_get_nth')
-            fail = n is not None and c['get'] == n
+            cnt = f.get('fail_get_count', 1); status = f.get('fail_get_status', 500)
+            fail = n is not None and n <= c['get'] < n + cnt
             data = STORE.get(bucket, {}).get(key)
-            LOG.setdefault(bucket, []).append({'op': 'GET', 'key': key, 'status': 500 if fail else (200 if data is not None else 404)})
-        if fail: return self._send(500, b'<Error><Code>InternalError</Code><Message>injected</Message></Error>')
+            LOG.setdefault(bucket, []).append({'op': 'GET', 'key': key, 'status': status if fail else (200 if data is not None else 404)})
+        if fail:
+            if status >= 500: return self._send(status, b'<Error><Code>InternalError</Code><Message>injected</Message></Error>')
+            return self._send(status, b'<Error><Code>AccessDenied</Code><Message>injected</Message></Error>')
         if data is None: return self._send(404, b'<Error><Code>NoSuchKey</Code><Message>no such key</Message></Error>')
         self._send(200, data, 'application/octet-stream', extra={'ETag': '"0"'})
     def do_HEAD(self):
